@@ -199,6 +199,16 @@ Definition dec_kvop (s : string) : option kvop :=
   else if String.eqb s "$lte" then Some OpLte else if String.eqb s "$gt" then Some OpGt
   else if String.eqb s "$gte" then Some OpGte else None.
 
+Definition omap {A B} (f : A -> option B) : list A -> option (list B) :=
+  fix go (l : list A) : option (list B) :=
+    match l with
+    | [] => Some []
+    | x :: r => match f x, go r with
+                | Some y, Some ys => Some (y :: ys)
+                | _, _ => None
+                end
+    end.
+
 (* query.ParseJSON / mapMapToExpression: a single-key object; $and/$or over an array of objects; $not over an
    object; the comparison operators over a single-key object *)
 Fixpoint dec_qexpr (j : json) : option qexpr :=
@@ -207,14 +217,7 @@ Fixpoint dec_qexpr (j : json) : option qexpr :=
       if String.eqb k "$and" || String.eqb k "$or" then
         match v with
         | JArr l =>
-            match (fix dl (l : list json) : option (list qexpr) :=
-                     match l with
-                     | [] => Some []
-                     | x :: r => match dec_qexpr x, dl r with
-                                 | Some e, Some es => Some (e :: es)
-                                 | _, _ => None
-                                 end
-                     end) l with
+            match omap dec_qexpr l with
             | Some es => Some (QSet (if String.eqb k "$and" then SAnd else SOr) es)
             | None => None
             end
